@@ -355,6 +355,106 @@ theorem C19_generic_names_distinct (stub : Name) (i j : Nat) (h : genericName st
   have h2 := List.append_cancel_right h1
   exact dec_inj h2
 
+/-! ### non-vacuity: concrete non-trivial instances meeting all hypotheses of the conditional theorems -/
+
+/-- shape of a real run: row `c` (cell 0) and column `x` (cell 1); `x` is copied to the flat variable 10; `c` is
+distributed to an auxiliary variable 11 (`c`), a functional constraint 12 (`c_2_`) and a linear constraint 13 (`c_3_`);
+12 is converted into 14 (`c_2_`) and 15 (`c_2__2_`).  Delivered: constraints 13, 14, 15, variables 10, 11. -/
+def exInit : St := (({} : St).set 0 { s := ['c'], n := 0 }).set 1 { s := ['x'], n := 0 }
+def exOps : List Op := [Op.copy 1 10, Op.distr 0 11, Op.distr 0 12, Op.distr 0 13, Op.distr 12 14, Op.distr 12 15]
+
+theorem exInit_roots (r : Nat) (h : (exInit.get r).s ≠ []) : r = 0 ∨ r = 1 := by
+  by_cases h1 : r = 1
+  · exact Or.inr h1
+  · by_cases h0 : r = 0
+    · exact Or.inl h0
+    · exfalso; apply h
+      simp [exInit, get_set_ne _ _ (Ne.symm h1), get_set_ne _ _ (Ne.symm h0), empty_get]
+
+theorem exEdges : edges exInit exOps =
+    [⟨1, .plain, 10⟩, ⟨0, .plain, 11⟩, ⟨0, .num 2, 12⟩, ⟨0, .num 3, 13⟩, ⟨12, .plain, 14⟩, ⟨12, .num 2, 15⟩] := by
+  simp [exInit, exOps, edges, stepE, step_s, step_n, Op.dst, Op.src, Op.lab, get_set_eq, get_set_ne, empty_get, cntLab]
+
+/-- all hypotheses of `C19_unique_cons_partial`, `C19_unique_vars_partial`, `C19_nonempty_partial`,
+`C19_nonempty_topological`, `C19_nonempty_delivered`, `C19_derived` hold together on a non-trivial run
+(two roots, six operations, two conversion levels, three delivered constraints and two delivered variables with
+five different non-empty names) -/
+theorem C19_hypotheses_satisfiable :
+    let E := edges exInit exOps
+    let R := plainClosure E.length E (plainPairs E)
+    SuffixFree exInit ∧ wellFed exInit exOps = true ∧ topoB [0, 1] exOps = true ∧
+    (∀ c ∈ [0, 1], (exInit.get c).s ≠ []) ∧
+    sibDistinctB E = true ∧ closedB E R = true ∧ noClashB E R = true ∧
+    belowFreeB R [13, 14, 15] = true ∧ belowFreeB R [10, 11] = true ∧ uncountedB (run exInit exOps) [10, 11] = true ∧
+    coveredB [0, 1] exOps [13, 14, 15, 10, 11] = true ∧
+    deliveredConName (run exInit exOps) 13 = "c_3_".toList ∧ deliveredConName (run exInit exOps) 14 = "c_2_".toList ∧
+    deliveredConName (run exInit exOps) 15 = "c_2__2_".toList ∧
+    deliveredVarName (run exInit exOps) 10 = "x".toList ∧ deliveredVarName (run exInit exOps) 11 = "c".toList := by
+  have hd2 : dec 2 = ['2'] := by decide
+  have hd3 : dec 3 = ['3'] := by decide
+  intro E R
+  have hE : E = _ := exEdges
+  refine ⟨?_, ?_, by decide, ?_, ?_, ?_, ?_, ?_, ?_, ?_, by decide, ?_, ?_, ?_, ?_, ?_⟩
+  · intro r r' hr hr' hne
+    rcases exInit_roots r hr with h | h <;> rcases exInit_roots r' hr' with h' | h' <;> subst h <;> subst h'
+    · exact absurd rfl hne
+    · simp [exInit, get_set_eq, get_set_ne, extendsB, isPrefixB]
+    · simp [exInit, get_set_eq, get_set_ne, extendsB, isPrefixB]
+    · exact absurd rfl hne
+  · simp [exInit, exOps, wellFed, step_s, step_n, Op.dst, Op.src, Op.lab, get_set_eq, get_set_ne, empty_get, cntLab, Lab.tok]
+  · intro c hc
+    simp at hc
+    rcases hc with h | h <;> subst h <;> simp [exInit, get_set_eq, get_set_ne]
+  · simp only [hE]; decide
+  · simp only [R, hE]; decide
+  · simp only [R, hE]; decide
+  · simp only [R, hE]; decide
+  · simp only [R, hE]; decide
+  · simp [uncountedB, exInit, exOps, run, step_s, step_n, Op.dst, Op.src, Op.lab, get_set_eq, get_set_ne, empty_get]
+  all_goals
+    simp [exInit, exOps, run, deliveredConName, deliveredVarName, VCStr.counted, cntSuffix, step_s, step_n, Op.dst, Op.src, Op.lab,
+      get_set_eq, get_set_ne, empty_get, cntLab, Lab.tok, hd2, hd3]
+
+/-- `C19_original_kept`: its hypotheses (empty target, named fresh source) hold for the copy of column `x` -/
+example : (exInit.get 10).s = [] ∧ (exInit.get 1).s ≠ [] ∧ (exInit.get 1).n = 0 := by
+  simp [exInit, get_set_eq, get_set_ne, empty_get]
+
+/-! ### the error branch of reading names: a names file whose last line is not terminated -/
+
+theorem scanNames_unterminated : ∀ (data : List Char) (pos start : Nat) (cr : Bool) (acc : List Nat) (last : Nat × Nat),
+    start ≤ pos → data ≠ [] → data.getLast? ≠ some '\n' → scanNames data pos start cr acc last = none := by
+  intro data
+  induction data with
+  | nil => intro _ _ _ _ _ _ h; exact absurd rfl h
+  | cons c cs ih =>
+    intro pos start cr acc last hle _ hlast
+    cases cs with
+    | nil =>
+      have hc : c ≠ '\n' := by intro h; apply hlast; simp [h]
+      simp only [scanNames, hc, if_false]
+      have : ¬ start = pos + 1 := by omega
+      simp [this]
+    | cons c' rest =>
+      have hlast' : (c' :: rest).getLast? ≠ some '\n' := by simpa [List.getLast?_cons_cons] using hlast
+      simp only [scanNames]
+      split
+      · exact ih (pos + 1) (pos + 1) false _ _ (Nat.le_refl _) (by simp) hlast'
+      · exact ih (pos + 1) start _ acc last (by omega) (by simp) hlast'
+
+/-- error branch: if names are to be read (`cvt:names` 1 or 2) and the `.col` file does not end with a newline, no names
+are produced at all — the model reports the `missing newline` error (the real driver then fails with a diagnosis and
+delivers no model; checked by the `nonewline` file variant) -/
+theorem C19_unterminated_names_file_is_error (i : NamesIn) (d : List Char) (hm : i.mode = 1 ∨ i.mode = 2)
+    (hcol : i.col = some d) (hne : d ≠ []) (hlast : d.getLast? ≠ some '\n') :
+    (match readNamesModel i with | .error => true | _ => false) = true := by
+  have hs : readNamesFile d = .missingNewline := by
+    simp [readNamesFile, scanNames_unterminated d 0 0 false [] (0, 0) (Nat.le_refl _) hne hlast]
+  have hf : fileOffsets (some d) = .missingNewline := by
+    cases d with
+    | nil => exact absurd rfl hne
+    | cons c cs => simpa [fileOffsets] using hs
+  rcases hm with h | h <;> simp [readNamesModel, h, hcol, hf]
+
 /-! ### translator ties: the hand model equals the definitions regenerated from the C++ source on every run
 (`translators/gen_names.py` -> `MpVerif/Gen/C19Names.lean`) -/
 
